@@ -232,26 +232,31 @@ _orig_int = _PATCH_REGISTRATIONS[builtins.int]
 _real_int = builtins.int
 
 
+_int_depth = [0]
+
+
 def _sym_int(*a, **k):
     with NoTracing():
         anysym = any(isinstance(x, CrossHairValue) for x in a) or any(isinstance(x, CrossHairValue) for x in k.values())
-        if not anysym:
-            concrete = all(type(x) in (_real_int, str, bytes, float, bool, bytearray) for x in a) and not k
-        symbytes = len(a) == 1 and not k and isinstance(a[0], BytesLike) and isinstance(a[0], CrossHairValue)
+        symbytes = False
+        if anysym:
+            symbytes = len(a) == 1 and not k and isinstance(a[0], BytesLike) and isinstance(a[0], CrossHairValue)
+            if symbytes:
+                cps = a[0]._ch_codepoints
+                if not isinstance(cps, list):
+                    symbytes = False
+        if not anysym and (_int_depth[0] > 0 or all(isinstance(x, (_real_int, str, bytes, float, bytearray)) for x in a)):
+            # concrete value (including the final int(val) of CrossHair's own model): the real int
+            return _real_int(*a, **k)
+    _int_depth[0] += 1
+    try:
         if symbytes:
-            cps = a[0]._ch_codepoints
-            if not isinstance(cps, list):
-                symbytes = False
-    if not anysym:
-        if concrete:
             with NoTracing():
-                return _real_int(*a)
+                s = LazyIntSymbolicStr(list(cps))
+            return _orig_int(s)
         return _orig_int(*a, **k)
-    if symbytes:
-        with NoTracing():
-            s = LazyIntSymbolicStr(list(cps))
-        return _orig_int(s)
-    return _orig_int(*a, **k)
+    finally:
+        _int_depth[0] -= 1
 
 
 _PATCH_REGISTRATIONS[builtins.int] = _sym_int
